@@ -409,14 +409,19 @@ func init() {
 	})
 	c01ExtraJobs = func(tier string) []reg.Job {
 		if tier == "thorough" {
-			return withPolicies(tier, []reg.Job{
+			return append(withPolicies(tier, []reg.Job{
 				{Part: "C01/reorder", Build: "instr", Args: map[string]string{"bound": "3", "big": "1"}, Shards: 16, BudgetS: 900, Label: "reply reordering, 3-4 chunks, db3"},
 				{Part: "C01/reorder", Build: "instr", Args: map[string]string{"strategy": "por"}, Shards: 16, BudgetS: 900, Label: "reply reordering, 3 chunks, por", Optional: true},
 				{Part: "C01/sharedpos", Build: "instr", Args: map[string]string{"bound": "5"}, Shards: 16, BudgetS: 600, Label: "Write/Read/Seek by goroutines sharing one File, db5"},
-			}, func(reg.Job) bool { return true })
+			}, func(reg.Job) bool { return true }),
+				reg.Job{Part: "C01/twofiles", Build: "instr", Args: map[string]string{"bound": "3", "cache": "1"}, Shards: 16, BudgetS: 420, Label: "two transfers at once on two Files of one Client, db3"},
+				reg.Job{Part: "C01/twofiles", Build: "instr", Args: map[string]string{"bound": "3", "cache": "1", "policy": "3"}, Shards: 8, BudgetS: 120, Label: "two transfers at once on two Files of one Client, db3 [policy 3, db3]"})
 		}
-		return withPolicies(tier, []reg.Job{{Part: "C01/reorder", Build: "instr", Args: map[string]string{"bound": "2"}, Shards: 16, BudgetS: 100, Label: "reply reordering, 3 chunks, db2"},
-			{Part: "C01/sharedpos", Build: "instr", Args: map[string]string{"bound": "3"}, Shards: 16, BudgetS: 100, Label: "Write/Read/Seek by goroutines sharing one File, db3"}}, func(reg.Job) bool { return true })
+		return append(withPolicies(tier, []reg.Job{{Part: "C01/reorder", Build: "instr", Args: map[string]string{"bound": "2"}, Shards: 16, BudgetS: 100, Label: "reply reordering, 3 chunks, db2"},
+			{Part: "C01/sharedpos", Build: "instr", Args: map[string]string{"bound": "3"}, Shards: 16, BudgetS: 100, Label: "Write/Read/Seek by goroutines sharing one File, db3"}}, func(reg.Job) bool { return true }),
+			// (default scheduler and the two strict-priority ones only: under round robin these executions are several hundred steps long)
+			reg.Job{Part: "C01/twofiles", Build: "instr", Args: map[string]string{"bound": "2", "cache": "1"}, Shards: 16, BudgetS: 100, Label: "two transfers at once on two Files of one Client, db2"},
+			reg.Job{Part: "C01/twofiles", Build: "instr", Args: map[string]string{"bound": "2", "cache": "1", "policy": "3"}, Shards: 8, BudgetS: 100, Label: "two transfers at once on two Files of one Client, db2 [policy 3, db2]"})
 	}
 	c01Prop.Rule += "; scheduled half: ReadAt/Read/WriteTo/WriteAt/Write/ReadFrom/ReadFromWithConcurrency of 3-4 chunks (P=2, K in {2,3}) against the permuting reference peer, every reply order and every schedule with <= d deviations, same byte-slice oracle"
 }
